@@ -57,6 +57,8 @@ def mask_raw_html(doc):
             used.append(ph)
         elif name == 'HtmlSpan':
             ph = chr(0xE000 + len(used) % 6400)
-            t.content = ph
+            # the double quote makes the stand-in hostile where it must not be copied verbatim: inside an attribute
+            # value (an image description) it would end the attribute unless it is escaped there
+            t.content = ph + '"'
             used.append(ph)
     return used
